@@ -432,7 +432,8 @@ func main() {
 
 	// ---- fixed cases first: the situations the repository's own tests name, for every mode
 	fixedHosts := []string{"play.example.org", "play.example.org\x00FML\x00", "play.example.org\x00FML2\x00", "play.example.org\x00FML3\x00",
-		"play.example.org\x00FORGE", "play.example.org\x00FORGE2", "FORGE.example.com", "", "::1", "[::1]", "a]b", "host///1.2.3.4:5///7\x00FML\x00"}
+		"play.example.org\x00FORGE", "play.example.org\x00FORGE2", "FORGE.example.com", "", "::1", "[::1]", "a]b",
+		"play.example.org\x00a]b", "play.example.org\x00[x", "host///1.2.3.4:5///7\x00FML\x00"}
 	for _, h := range fixedHosts {
 		for _, mode := range []string{"none", "velocity", "legacy", "bungeeguard"} {
 			for _, ct := range connTypes {
